@@ -244,7 +244,33 @@ def chk_field(case):
     return out
 
 
-CASES = {"field": chk_field, "add": chk_add, "mul": chk_mul, "ident": chk_ident, "coord": chk_coord, "privkey": chk_privkey,
+def chk_poke(case):
+    """other entry points of the same module used in between (no oracle of their own here - C01/C02 judge them): ECDSA signing
+    and verification with every nonce of the scaled-down group.  They work modulo n where the group law works modulo p: any
+    state the module keeps across calls (a memo of inverses, a scratch table) is now filled by the OTHER arithmetic"""
+    import secrets
+    import bits.ecmath as em
+    C = smallcurve.curve(case["curve"])
+    saved = secrets.randbelow
+    try:
+        for k in range(1, C.n):
+            ctr = [k - 1]
+
+            def draw(bound, ctr=ctr):         # k, k+1, k+2, ... (a constant draw would make a legitimate retry loop spin for ever)
+                ctr[0] += 1
+                return ctr[0] % bound
+            secrets.randbelow = draw
+            try:
+                r, s_ = em.sign(case["d"], case["z"])
+                em.verify(r, s_, C.mul(case["d"], C.G), case["z"])
+            except Exception:
+                pass
+    finally:
+        secrets.randbelow = saved
+    return []
+
+
+CASES = {"poke": chk_poke, "field": chk_field, "add": chk_add, "mul": chk_mul, "ident": chk_ident, "coord": chk_coord, "privkey": chk_privkey,
          "keygen": chk_keygen}
 
 
@@ -317,7 +343,9 @@ def seq_ops(job):
            ("mul", {"curve": cv, "k": 7, "P": list(C.neg(Q))}), ("ident", {"curve": cv, "a": 6, "b": C.n - 1, "P": list(P)}),
            ("privkey", {"curve": cv, "key": (3).to_bytes(32, "big").hex()}), ("privkey", {"curve": cv, "key": C.n.to_bytes(32, "big").hex()}),
            ("keygen", {"curve": cv, "draw": ["abs", 0]}), ("keygen", {"curve": cv, "draw": ["top", 1]}), ("coord", {"curve": cv, "x": P[0], "y": P[1]}),
-           ("coord", {"curve": cv, "x": P[0] + C.p, "y": P[1]})]
+           ("coord", {"curve": cv, "x": P[0] + C.p, "y": P[1]}),
+           ("poke", {"curve": cv, "d": 3, "z": 5}), ("add", {"curve": cv, "P": list(C.mul(2, C.G)), "Q": list(C.mul(5, C.G))}),
+           ("mul", {"curve": cv, "k": C.n - 1, "P": list(C.G)})]
     return ops
 
 
